@@ -326,8 +326,9 @@ class C12(Spec):
         'mc_reference needs 2-D data; iirfilter needs a non-empty first chunk; block sizes / factors are >= 1',
         'rms: annotated input starts at a multiple of the block length (s0/n is a true division in the code)',
         'event_rate: every event lies inside the span of the Events object that carries it (listed in any order), one sampling rate',
-        'the Ellipsis restart signal of blocked/discard must be forwarded to the target; the stream that follows is a new input stream '
-        '(the model starts a fresh stage; the Lean step functions do not contain the Ellipsis branch)',
+        'the Ellipsis restart signal of blocked/discard must be forwarded to the target exactly once; the stream that follows is a new '
+        'input stream and must be processed as by a freshly created stage (the model runs its own Ellipsis branch on the carried state: '
+        'blockedStepE / discardStepE; theorems blocked_restart_like_fresh / discard_restart_like_fresh)',
         'not demanded (fail on the unchanged library, reported in notes/C12.md, generated with VERIF_PENDING=1 only): the caller may overwrite '
         'a chunk after send() (blocked, downsample, rms, auto_th keep references into it); auto_th adding its threshold to the metadata of the chunk it was sent',
     ]
@@ -669,7 +670,13 @@ class C12(Spec):
         if c['kind'] == 'dual':
             return self.model_lines(c['a']) + self.model_lines(c['b'])
         if c.get('segs'):
-            return [l for sg in self._segments(c) for l in self.model_lines(sg)]
+            # the Ellipsis signal goes through the model's restart branch (blockedStepE / discardStepE): the stage state is
+            # carried over, not re-created; the stream that follows starts at its own s0
+            lines = []
+            for i, sg in enumerate(self._segments(c)):
+                ls = self.model_lines(sg)
+                lines += ([f"restart {sg['s0']}"] + ls[1:]) if i else ls
+            return lines
         if c['kind'] == 'event_rate':
             lines = [f"new event_rate 1 1 {c['s0']} {c['p1']} {c['p2']}"]
             pos = c['s0']
